@@ -290,8 +290,9 @@ Proof.
   induction o as [|c o IH]; intros t Ht HL; [reflexivity|]. cbn [layoutb] in HL. cbn [forallb].
   destruct (out_ws c) eqn:Ew.
   - rewrite (out_ws_docplain c Ew). apply (IH (drop_ws t)); [apply drop_ws_docplain; exact Ht | exact HL].
-  - destruct t as [|c' t']; [discriminate|]. apply andb_true_iff in HL. destruct HL as [Hc HL].
-    apply N.eqb_eq in Hc. subst c'. cbn [forallb] in Ht. apply andb_true_iff in Ht. destruct Ht as [Hc Ht].
+  - pose proof (drop_ws_docplain t Ht) as Hd.
+    destruct (drop_ws t) as [|c' t']; [discriminate|]. apply andb_true_iff in HL. destruct HL as [Hc HL].
+    apply N.eqb_eq in Hc. subst c'. cbn [forallb] in Hd. apply andb_true_iff in Hd. destruct Hd as [Hc Hd].
     rewrite Hc. apply (IH t'); assumption.
 Qed.
 
